@@ -40,6 +40,7 @@ import (
 	"google.golang.org/grpc"
 	"google.golang.org/grpc/codes"
 	"google.golang.org/grpc/metadata"
+	"google.golang.org/grpc/stats"
 	"google.golang.org/grpc/status"
 	"google.golang.org/protobuf/proto"
 	"google.golang.org/protobuf/types/known/wrapperspb"
@@ -54,6 +55,7 @@ type HOp struct {
 	Msg  int64  `json:"msg,omitempty"`  // return: status message token
 	Ctx  bool   `json:"ctx,omitempty"`  // return: the handler context's error
 	Raw  string `json:"raw,omitempty"`  // return: a raw error of the handler's own making: canceled | deadline | plain | eof
+	Hold string `json:"hold,omitempty"` // return: where the return path is held until the step "hrelease": "trailer" (in the stats handler's OutTrailer event: handler returned, trailer not yet handed to the writer) | "post" (in the stream interceptor, after the handler function has returned)
 }
 
 type Step struct {
@@ -100,10 +102,13 @@ type cwRig struct {
 	mu            sync.Mutex
 	sendWFailed   map[int]bool         // calls with an operation that failed with a transport write error (see classFor)
 	keepAlive     []context.CancelFunc // cancel functions of inner contexts (released when the scenario is over)
-	onWriteCancel int                  // >= 0: the call whose context is cancelled inside the next client Write
-	onWriteGate   chan struct{}        // non-nil: the next client Write returns only when the gate is closed
-	events        []string             // client API events since the last snapshot
-	hevents       []string             // handler events since the last snapshot
+	holdTrailer   chan struct{}        // non-nil: the next OutTrailer stats event waits for it
+	holdPost      chan struct{}        // non-nil: the stream interceptor waits for it after the next handler return
+	held          []chan struct{}
+	onWriteCancel int           // >= 0: the call whose context is cancelled inside the next client Write
+	onWriteGate   chan struct{} // non-nil: the next client Write returns only when the gate is closed
+	events        []string      // client API events since the last snapshot
+	hevents       []string      // handler events since the last snapshot
 	pend          map[string]bool
 	ctxs          []context.Context
 	cancels       []context.CancelFunc
@@ -671,8 +676,23 @@ func (r *cwRig) do(a Step) []string {
 		}
 		r.mu.Unlock()
 		if ok {
+			if a.H.Hold != "" {
+				g := make(chan struct{})
+				r.mu.Lock()
+				if a.H.Hold == "trailer" {
+					r.holdTrailer = g
+				} else {
+					r.holdPost = g
+				}
+				r.held = append(r.held, g)
+				r.mu.Unlock()
+			}
 			h.cmd <- *a.H
 		}
+		return nil
+	case "hrelease":
+		// the held return path goes on: the trailer is handed to the writer
+		r.releaseHeld()
 		return nil
 	case "hu":
 		r.mu.Lock()
@@ -776,6 +796,50 @@ func (r *cwRig) do(a Step) []string {
 		return nil
 	}
 	panic("cw: unknown op " + a.Op)
+}
+
+func (r *cwRig) releaseHeld() {
+	r.mu.Lock()
+	hs := r.held
+	r.held, r.holdTrailer, r.holdPost = nil, nil, nil
+	r.mu.Unlock()
+	for _, g := range hs {
+		close(g)
+	}
+}
+
+// cwStats: a server stats handler under the schedule's control: the OutTrailer event (reported by SendTrailer just
+// before the trailer is handed to the writer) can be held: "handler returned, trailer not yet written" becomes a
+// quiescent point.
+type cwStats struct{ r *cwRig }
+
+func (s *cwStats) TagRPC(ctx context.Context, _ *stats.RPCTagInfo) context.Context   { return ctx }
+func (s *cwStats) TagConn(ctx context.Context, _ *stats.ConnTagInfo) context.Context { return ctx }
+func (s *cwStats) HandleConn(context.Context, stats.ConnStats)                       {}
+func (s *cwStats) HandleRPC(_ context.Context, ev stats.RPCStats) {
+	if _, ok := ev.(*stats.OutTrailer); !ok {
+		return
+	}
+	s.r.mu.Lock()
+	g := s.r.holdTrailer
+	s.r.holdTrailer = nil
+	s.r.mu.Unlock()
+	if g != nil {
+		<-g
+	}
+}
+
+// the stream interceptor: its part after the handler function can be held
+func (r *cwRig) intercept(srv any, ss grpc.ServerStream, _ *grpc.StreamServerInfo, handler grpc.StreamHandler) error {
+	err := handler(srv, ss)
+	r.mu.Lock()
+	g := r.holdPost
+	r.holdPost = nil
+	r.mu.Unlock()
+	if g != nil {
+		<-g
+	}
+	return err
 }
 
 // classFor: the class of an error returned by an operation on call c. ONE observable is canonicalised: after a
@@ -1023,7 +1087,7 @@ func stepTag(a Step) string {
 		return "KHU"
 	case "srvfail":
 		return "KSrvFail"
-	case "sblock":
+	case "sblock", "hrelease":
 		return "KSBlock"
 	}
 	return "KUser"
@@ -1138,7 +1202,8 @@ func runCwScenario(t *testing.T, idx int, kind string, sc cwScenario, em *Emitte
 			rig.cc = goat.NewClientConn(link.C, "src", "dst")
 		}
 		if sc.Mode != "client" {
-			rig.srv = newEchoServer("dst", &echoImpl{unary: rig.unaryHandler, stream: rig.streamHandler})
+			rig.srv = newEchoServer("dst", &echoImpl{unary: rig.unaryHandler, stream: rig.streamHandler},
+				goat.StatsHandler(&cwStats{rig}), goat.StreamInterceptor(rig.intercept))
 			var srvCtx context.Context
 			srvCtx, srvCancel = context.WithCancel(context.Background())
 			go func() {
@@ -1229,6 +1294,7 @@ func runCwScenario(t *testing.T, idx int, kind string, sc cwScenario, em *Emitte
 			delete(rig.ugates, k)
 		}
 		rig.mu.Unlock()
+		rig.releaseHeld()
 		link.C.UnblockWrites()
 		link.S.UnblockWrites()
 		link.C.FailRead(errInjected)
